@@ -266,8 +266,78 @@ def m_dep_mapper(ctx, it, args, kw):
 VARNAME.fields["name"] = (lambda t: t, VARNAME)
 
 
+def _const_of(ctx, v):
+    """a Python constant out of an evaluated literal (False / True / a string), or the marker `...` if it is not one"""
+    v = ctx.deref(v)
+    if isinstance(v, VBool):
+        t = z3.simplify(v.t)
+        return True if z3.is_true(t) else False if z3.is_false(t) else ...
+    if isinstance(v, VPy) and isinstance(v.py, str):
+        return v.py
+    if isinstance(v, VStr):
+        t = z3.simplify(v.t)
+        return t.as_string() if z3.is_string_value(t) else ...
+    return ...
+
+
+A_DEP_FLAGS = {"include_subscripts": False, "include_lookups": False, "include_calls": "descend_args"}
+
+
+def check_mapper_flags(ctx, args, kw, what):
+    """A-DEP is stated for (Extended)DependencyMapper(include_subscripts=False, include_lookups=False,
+    include_calls='descend_args').  Any other flag, a missing flag (pymbolic's defaults include lookups and subscripts as
+    nodes) or a positional argument is outside the assumption: undecided."""
+    if args:
+        raise Unsupported("%s with positional arguments: outside A-DEP" % what)
+    flags = {}
+    for k, v in kw.items():
+        if k is None:                               # **args of a dict literal
+            d = ctx.deref(v)
+            if not (isinstance(d, VPy) and isinstance(d.py, dict)):
+                raise Unsupported("%s(**%r)" % (what, d))
+            flags.update(d.py)
+        else:
+            flags[k] = v
+    got = {k: _const_of(ctx, v) for k, v in flags.items()}
+    if got != A_DEP_FLAGS:
+        raise Unsupported("%s is built with %s; A-DEP is stated for %s" % (
+            what, {k: ("<not a constant>" if v is ... else v) for k, v in sorted(got.items())}, A_DEP_FLAGS))
+
+
 def m_get_dependency_mapper(ctx, it, args, kw):
+    # self.get_dependency_mapper(): the default include_calls='descend_args' (contract MapperFactory below); any argument
+    # would select another traversal of calls
+    if args or kw:
+        raise Unsupported("get_dependency_mapper(%s): only the default traversal of calls is covered by A-DEP"
+                          % ", ".join(list(map(str, args)) + sorted(k for k in kw if k)))
     return VFunc("dep_mapper", m_dep_mapper)
+
+
+class MapperFactory(FunctionContract):
+    """StatementBase.get_dependency_mapper / Statement.get_dependency_mapper(include_calls='descend_args'): the mapper is built
+    with include_subscripts=False, include_lookups=False and the caller's include_calls, which is what A-DEP is stated for"""
+    prop = "C08"
+    relpath = LANG
+
+    def __init__(self, qualname, cls):
+        self.qualname = qualname
+        self.cls = cls
+
+    def params(self, ctx):
+        ctx.env["self"] = VObj(TObj("Statement", {}), {})
+        ctx.env["include_calls"] = VPy("descend_args")
+        ctx.ghost["built"] = z3.BoolVal(False)
+
+    def m_mapper(self, ctx, it, args, kw):
+        check_mapper_flags(ctx, args, kw, self.cls)
+        ctx.ghost["built"] = z3.BoolVal(True)
+        return VPy("<the mapper of A-DEP>")
+
+    calls = property(lambda self: {self.cls: self.m_mapper})
+
+    def ensures(self, st):
+        r = st._deref(st.result)
+        return [("returns-the-mapper-A-DEP-is-stated-for", z3.BoolVal(isinstance(r, VPy) and r.py == "<the mapper of A-DEP>"))]
 
 
 def m_get_variables(ctx, it, args, kw):
@@ -369,13 +439,28 @@ class AssignBaseReads(DeclContract):
 # the interpreter side: ghost touched sets
 # ==========================================================================
 
+def _key(v):
+    """the variable name a context key denotes: a name term, or - for a string literal in the interpreter's text - an
+    arbitrary fixed name (nothing is known about it, in particular not that the statement declares it)"""
+    if isinstance(v, VPy) and isinstance(v.py, str):
+        return z3.Const("the_name_%r" % v.py, VarName)
+    if hasattr(v, "t"):
+        return v.t
+    raise Unsupported("context key %r" % (v,))
+
+
+class _K:
+    def __init__(self, t):
+        self.t = t
+
+
 class VContext(V):
     """self.context: every key read / written is recorded in ghost sets"""
     ty = None
 
     def getitem(self, it, idx, node):
         ctx = it.ctx
-        name = ctx.deref(idx)
+        name = _K(_key(ctx.deref(idx)))
         ctx.ghost["touched_r"] = Store(ctx.ghost["touched_r"], name.t, True)
         ctx.ghost["scope_r"] = union(ctx.ghost["scope_r"], minus(single(name.t), ctx.ghost["bound"]))
         return VArr(name.t)
@@ -383,18 +468,19 @@ class VContext(V):
     def contains(self, it, x):
         # `name in context` is a read of that key
         ctx = it.ctx
+        x = _K(_key(ctx.deref(x)))
         ctx.ghost["touched_r"] = Store(ctx.ghost["touched_r"], x.t, True)
         ctx.ghost["scope_r"] = union(ctx.ghost["scope_r"], minus(single(x.t), ctx.ghost["bound"]))
         return z3.Bool(fresh_name("key_present"))
 
     def setitem(self, it, idx, v, node):
         ctx = it.ctx
-        name = ctx.deref(idx)
+        name = _K(_key(ctx.deref(idx)))
         ctx.ghost["touched_w"] = Store(ctx.ghost["touched_w"], name.t, True)
 
     def delitem(self, it, idx, node):
         ctx = it.ctx
-        name = ctx.deref(idx)
+        name = _K(_key(ctx.deref(idx)))
         if ctx.choose(2, "del-missing") == 0:
             ctx.raise_("KeyError")
         ctx.ghost["touched_w"] = Store(ctx.ghost["touched_w"], name.t, True)
@@ -402,7 +488,7 @@ class VContext(V):
 
 def _ctx_pop(ctx, it, obj, args, kw):
     """dict.pop(key, default): removes the key if present, never raises with a default"""
-    name = ctx.deref(args[0])
+    name = _K(_key(ctx.deref(args[0])))
     if len(args) < 2:
         if ctx.choose(2, "pop-missing") == 0:
             ctx.raise_("KeyError")
@@ -425,6 +511,21 @@ class VArr(V):
         ctx.ghost["touched_w"] = Store(ctx.ghost["touched_w"], self.name, True)
         if ctx.choose(2, "array-store-raises") == 0:
             ctx.raise_("EvalError")
+
+
+class VValue(V):
+    """the value an expression evaluates to: anything, possibly None (EvaluationMapper.map_variable returns None for a name
+    that is neither in the context nor a function); `v is None` is an unconstrained flag of the value"""
+    ty = None
+
+    def __init__(self):
+        self.none = z3.Bool(fresh_name("value_is_None"))
+
+    def is_none(self):
+        return self.none
+
+    def __repr__(self):
+        return "VValue"
 
 
 class ExecContract(FunctionContract):
@@ -464,7 +565,7 @@ class ExecContract(FunctionContract):
         ctx.ghost["scope_r"] = union(ctx.ghost["scope_r"], minus(r, ctx.ghost["bound"]))
         if ctx.choose(2, "eval-raises") == 0:
             ctx.raise_("EvalError")
-        return VInt(z3.Int(fresh_name("value"))) if getattr(self, "eval_returns_int", False) else VPy("<value>")
+        return VInt(z3.Int(fresh_name("value"))) if getattr(self, "eval_returns_int", False) else VValue()
 
     calls = property(lambda self: {"self.eval_mapper": self.m_eval})
 
@@ -953,11 +1054,19 @@ class GetVariables(FunctionContract):
         ctx.env["include_function_symbols"] = VBool(False)
 
     def dict_literal(self, ctx, it, e):
-        for v in e.values:
-            it.eval(v)
-        return VPy("<mapper arguments>")
+        d = {}
+        for k, v in zip(e.keys, e.values):
+            kk = _const_of(ctx, it.eval(k)) if k is not None else None
+            if not isinstance(kk, str):
+                raise Unsupported("mapper arguments with a key that is not a string literal")
+            d[kk] = it.eval(v)
+        return VPy(d)
 
-    calls = {"ExtendedDependencyMapper": lambda ctx, it, a, k: VFunc("dep_mapper", m_dep_mapper)}
+    def m_mapper(self, ctx, it, args, kw):
+        check_mapper_flags(ctx, args, kw, "ExtendedDependencyMapper")
+        return VFunc("dep_mapper", m_dep_mapper)
+
+    calls = property(lambda self: {"ExtendedDependencyMapper": self.m_mapper})
     names = {"frozenset": VFunc("frozenset", m_frozenset),
              "flatten": VFunc("flatten", lambda ctx, it, a, k: EXPR.wrap(FLAT(ctx.deref(a[0]).t)))}
 
@@ -1111,6 +1220,8 @@ def units():
     us = [
         ClassShapeUnit("dagrt/expression.py", "ExtendedDependencyMapper", {"map_foreign"}, ["DependencyMapper"], "A-DEP"),
         FunctionUnit(MapForeign("None")), FunctionUnit(MapForeign("str")), FunctionUnit(MapForeign("other")),
+        FunctionUnit(MapperFactory("StatementBase.get_dependency_mapper", "DependencyMapper")),
+        FunctionUnit(MapperFactory("Statement.get_dependency_mapper", "ExtendedDependencyMapper")),
         ClassShapeUnit("dagrt/expression.py", "EvaluationMapper",
                        {"__init__", "map_variable", "map_generic_call", "map_call", "map_call_with_kwargs"},
                        ["EvaluationMapperBase"], "A-EVAL"),
